@@ -2389,20 +2389,28 @@ func streamHandlerFor(shape string) grpc.StreamHandler {
 			}
 			return true
 		}
+		sendFailed := false // like any real handler, the script stops sending once a send has failed
 		as.next = func() *opSpec {
 			switch stage {
 			case 0:
-				if opi < len(sp.HOps) {
+				for opi < len(sp.HOps) {
 					op := sp.HOps[opi]
 					i := opi
 					opi++
+					if op.Kind == "send" && sendFailed {
+						continue
+					}
 					if op.Kind == "send" {
 						return &opSpec{kind: "send", idx: op.Idx, run: func(rec *OpRec) {
 							size := 0
 							if op.Idx < len(sp.Resp) {
 								size = sp.Resp[op.Idx]
 							}
-							setErr(rec, ss.SendMsg(msgOf(payload(r.idx, 'p', op.Idx, size))))
+							err := ss.SendMsg(msgOf(payload(r.idx, 'p', op.Idx, size)))
+							if err != nil {
+								sendFailed = true
+							}
+							setErr(rec, err)
 						}}
 					}
 					return &opSpec{kind: op.Kind, idx: i, run: func(rec *OpRec) { w.opHandlerMD(ctx, ss, op, rec) }}
